@@ -130,98 +130,209 @@ def check(run):
             run.violation("G3", f.where, f"closest_point, {what.split(':')[0]}: the returned point is not the closest point of that feature", key=key_of("C12-G3", region))
 
     # ------------------------------------------------------------------ S ray_triangle_id
+    # Every returned array is one canonical term over the function's parameters and three producer calls (SSA provenance:
+    # names of locals, re-bindings like `location = location[hit]` and intermediate steps disappear).  The rule is about
+    # ROW ALIGNMENT: triangle index, ray index, location and the distance used to pick the first hit must all have passed
+    # the same masks in the same order.
+    from ..template import match_expr
     f = ix.func("trimesh.ray.ray_triangle:ray_triangle_id")
-    pv = Prov(ix, f)
+    SYM = {"trimesh.ray.ray_triangle.ray_triangle_candidates": "CAND", "trimesh.intersections.planes_lines": "PL", "trimesh.triangles.points_to_barycentric": "BARY"}
+    pv = Prov(ix, f, ssa=True, depth=18, abstract=SYM)
+    # the arguments of the barycentric call, over the other two producers
+    pb = Prov(ix, f, ssa=True, depth=18, abstract={k_: v_ for k_, v_ in SYM.items() if v_ != "BARY"})
+    producers = {}
+    for n in ast.walk(f.node):
+        if isinstance(n, ast.Call) and pb.callee(n.func) in SYM:
+            producers[SYM[pb.callee(n.func)]] = pb.canon(n, pb.stmt_of(n)) if SYM[pb.callee(n.func)] == "BARY" else "-"
+    if set(producers) != {"CAND", "PL", "BARY"}:
+        raise AnalysisError(f"anchor vanished: ray_triangle_id no longer calls ray_triangle_candidates / planes_lines / points_to_barycentric (found {sorted(producers)})")
 
-    def canon_of(name, at=None):
-        defs = [st for st in ast.walk(f.node) if isinstance(st, ast.Assign) and isinstance(st.targets[0], ast.Name) and st.targets[0].id == name]
-        return [(st, pv.canon(st.value, st, stop=STOP)) for st in defs]
+    def abbr(t):
+        return t
 
-    STOP = ("barycentric", "location", "ray_candidates", "ray_id", "valid", "hit", "forward", "index_tri", "index_ray", "distance", "vector", "triangles", "tree",
-            "ray_origins", "ray_directions", "triangle_candidates")
-    hit = canon_of("hit")
-    ok = len(hit) == 1 and hit[0][1] in (
-        "numpy.logical_and((L_barycentric > -tol.zero).all(axis=1), (L_barycentric < 1 + tol.zero).all(axis=1))",
-        "numpy.logical_and((L_barycentric < 1 + tol.zero).all(axis=1), (L_barycentric > -tol.zero).all(axis=1))")
-    run.instance("S", f.where, f"hit := {hit[0][1][:120] if hit else None}", ok)
-    if not ok:
-        run.violation("S", f.where, f"ray_triangle_id accepts a plane hit under `{hit[0][1][:120] if hit else None}`: not `all barycentric coordinates in [-tol.zero, 1 + tol.zero]`",
+    rets = [r for r in ast.walk(f.node) if isinstance(r, ast.Return) and isinstance(r.value, ast.Tuple) and len(r.value.elts) == 3 and pv.stmt_of_return(r) is not None]
+    full = []
+    for r in rets:
+        terms = [abbr(pv.canon(e_, r)) for e_ in r.value.elts]
+        if all(t in ("[]", "numpy.zeros((0, 3))", "numpy.zeros(0)") or t.startswith("numpy.zeros(") or t.startswith("[]") for t in terms):
+            continue  # the literal empty result
+        full.append((r, terms))
+    if not full:
+        raise AnalysisError("anchor vanished: the (index_tri, index_ray, location) returns of ray_triangle_id")
+    HITS = ["numpy.logical_and((BARY > -tol.zero).all(axis=1), (BARY < 1 + tol.zero).all(axis=1))",
+            "numpy.logical_and((BARY < 1 + tol.zero).all(axis=1), (BARY > -tol.zero).all(axis=1))",
+            "(BARY > -tol.zero).all(axis=1) & (BARY < 1 + tol.zero).all(axis=1)",
+            "numpy.logical_and(BARY > -tol.zero, BARY < 1 + tol.zero).all(axis=1)"]
+    ok_hit = ok_seq = ok_fwd = ok_first = True
+    why = {}
+    n_first = 0
+    for r, (tri, ray, loc) in full:
+        env = match_expr("_e_TRI1[_e_SEL]", tri)
+        env = env and match_expr("_e_IR1[_e_SEL]", ray, env)
+        env = env and match_expr("_e_LOC1[_e_SEL]", loc, env)
+        if not env:
+            ok_seq = False
+            why["seq"] = f"line {r.lineno}: the three results are not selected by one common index"
+            continue
+        first = match_expr("[_v_g[_e_D1[_v_g].argmin()] for _v_g in trimesh.grouping.group(_e_IRG)]", env["_e_SEL"])
+        if first:
+            # the first-hit return: SEL picks, per group of equal ray index, the row of least distance
+            n_first += 1
+            if first["_e_IRG"] != env["_e_IR1"]:
+                ok_first = False
+                why["first"] = "the groups are not those of the returned ray index"
+            base = {"_e_TRI0": None}
+            e2 = match_expr("_e_TRI0[_e_FWD]", env["_e_TRI1"])
+            e2 = e2 and match_expr("_e_IR0[_e_FWD]", env["_e_IR1"], e2)
+            e2 = e2 and match_expr("_e_LOC0[_e_FWD]", env["_e_LOC1"], e2)
+            d2 = e2 and match_expr("_e_D0[_e_FWD]", first["_e_D1"], e2)
+            if not e2:
+                ok_seq = False
+                why["seq"] = f"line {r.lineno}: the arrays the first hit is picked from are not masked alike"
+                continue
+            if not d2:
+                ok_first = False
+                why["first"] = (f"the distances compared within a ray's group (`{first['_e_D1'][:60]}...`) have not passed the forward mask the grouped rows have passed: "
+                                f"row i of the distances is not hit i")
+                e2 = match_expr("_e_D0 > _e_eps", e2["_e_FWD"], e2) or e2
+            else:
+                e2 = d2
+        else:
+            e2 = match_expr("_e_TRI0[_e_FWD]", tri)
+            e2 = e2 and match_expr("_e_IR0[_e_FWD]", ray, e2)
+            e2 = e2 and match_expr("_e_LOC0[_e_FWD]", loc, e2)
+            if not e2:
+                ok_seq = False
+                continue
+        # forward filter: distance along the ray direction of the very rows it filters
+        fwd = None
+        for eps in ("-1e-06", "0", "0.0", "-tol.zero", "-tol.merge"):
+            for op in (">", ">="):
+                fwd = fwd or match_expr(f"_e_D0 {op} {eps}", e2["_e_FWD"], {k_: v_ for k_, v_ in e2.items() if k_ == "_e_D0"})
+        dd = fwd and match_expr("trimesh.util.diagonal_dot(_e_LOC0 - P_ray_origins[_e_IR0], P_ray_directions[_e_IR0])", fwd["_e_D0"],
+                                {k_: e2[k_] for k_ in ("_e_LOC0", "_e_IR0")})
+        if not (fwd and dd):
+            ok_fwd = False
+            why["fwd"] = f"forward mask `{e2['_e_FWD'][:90]}`"
+        # hit test and its row space: candidates restricted to valid plane hits, then to barycentric hits
+        h = match_expr("CAND[0][PL[1]][_e_HIT]", e2["_e_TRI0"])
+        h = h and match_expr("CAND[1][PL[1]][_e_HIT]", e2["_e_IR0"], h)
+        h = h and match_expr("PL[0][_e_HIT]", e2["_e_LOC0"], h)
+        if not h:
+            ok_seq = False
+            why["seq"] = f"line {r.lineno}: candidates / ray ids / plane hits are not restricted by [valid][hit] alike"
+        elif not any(match_expr(t_, h["_e_HIT"]) is not None for t_ in HITS):
+            ok_hit = False
+            why["hit"] = h["_e_HIT"][:120]
+    bary_ok = match_expr("trimesh.triangles.points_to_barycentric(P_triangles[CAND[0]][PL[1]], PL[0])", abbr(producers["BARY"])) is not None \
+        or match_expr("trimesh.triangles.points_to_barycentric(triangles=P_triangles[CAND[0]][PL[1]], points=PL[0])", abbr(producers["BARY"])) is not None
+    run.instance("S", f.where, "hit := all barycentric coordinates of the plane hit (w.r.t. its own candidate triangle) in [-tol.zero, 1 + tol.zero]", ok_hit and bary_ok)
+    if not (ok_hit and bary_ok):
+        run.violation("S", f.where, f"ray_triangle_id accepts a plane hit under `{why.get('hit', abbr(producers['BARY'])[:120])}`: not `all barycentric coordinates in [-tol.zero, 1 + tol.zero]`",
                       key=key_of("C12-S", "hit-test"))
-    # the three result arrays pass the same masks in the same order
-    seqs = {}
-    for name in ("index_tri", "index_ray", "location"):
-        seqs[name] = [c for _, c in canon_of(name)]
-    norm = {
-        "index_tri": [s.replace("L_ray_candidates", "X").replace("L_index_tri", "X") for s in seqs["index_tri"]],
-        "index_ray": [s.replace("L_ray_id", "X").replace("L_index_ray", "X") for s in seqs["index_ray"]],
-    }
-    loc = [s for s in seqs["location"] if s.startswith("L_location[")]
-    ok = norm["index_tri"] == norm["index_ray"] == ["X[L_valid][L_hit]", "X[L_forward]"] and loc == ["L_location[L_hit]", "L_location[L_forward]"]
-    run.instance("S", f.where, f"index_tri / index_ray / location masked by [valid][hit] then [forward] ({norm['index_tri']}, {norm['index_ray']}, {loc})", ok)
-    if not ok:
-        run.violation("S", f.where, f"the result arrays of ray_triangle_id are not masked alike ({seqs}): triangle index, ray index and location no longer correspond row by row",
+    run.instance("S", f.where, f"index_tri / index_ray / location masked by [valid][hit] then [forward] on {len(full)} return(s)", ok_seq)
+    if not ok_seq:
+        run.violation("S", f.where, f"the result arrays of ray_triangle_id are not masked alike ({why.get('seq', '')}): triangle index, ray index and location no longer correspond row by row",
                       key=key_of("C12-S", "mask-sequence"))
-    fw = canon_of("forward")
-    dist = canon_of("distance")
-    vec = canon_of("vector")
-    ok = bool(fw) and fw[0][1] in ("L_distance > -1e-06", "L_distance >= -1e-06", "L_distance > 0", "L_distance >= 0", "L_distance > 0.0") \
-        and bool(dist) and dist[0][1] == "trimesh.util.diagonal_dot(L_vector, L_ray_directions[L_index_ray])" \
-        and bool(vec) and vec[0][1] == "L_location - L_ray_origins[L_index_ray]"
-    run.instance("S", f.where, f"forward := {fw[0][1] if fw else None}; distance := {dist[0][1] if dist else None}", ok)
-    if not ok:
-        run.violation("S", f.where, "ray_triangle_id no longer keeps exactly the hits whose parameter along the ray direction is non-negative (to 1e-6)", key=key_of("C12-S", "forward"))
-    first = canon_of("first")
-    ok = bool(first) and "L_distance[g].argmin()" in first[0][1].replace("EACH(trimesh.grouping.group(L_index_ray))", "g") and "trimesh.grouping.group(L_index_ray)" in first[0][1]
-    run.instance("S", f.where, f"first := {first[0][1][:110] if first else None}", ok)
-    if not ok:
-        run.violation("S", f.where, "the first hit of a ray is no longer the one with the smallest ray parameter within that ray's group of hits", key=key_of("C12-S", "first-hit"))
-    tr = canon_of("tree")
-    ok = bool(tr) and tr[0][1] == "trimesh.triangles.bounds_tree(L_triangles)"
-    run.instance("S", f.where, f"tree := {tr[0][1] if tr else None} when none is passed", ok)
+    run.instance("S", f.where, "forward := distance along the ray direction of the same rows > -1e-6", ok_fwd)
+    if not ok_fwd:
+        run.violation("S", f.where, f"ray_triangle_id no longer keeps exactly the hits whose parameter along the ray direction is non-negative (to 1e-6) ({why.get('fwd', '')})",
+                      key=key_of("C12-S", "forward"))
+    ok_first = ok_first and n_first >= 1
+    run.instance("S", f.where, "first hit := per group of equal ray index, the row with the least distance, distances row-aligned with the grouped arrays", ok_first)
+    if not ok_first:
+        run.violation("S", f.where, f"the first hit of a ray is no longer the one with the smallest ray parameter within that ray's group of hits ({why.get('first', 'no first-hit return recognised')})",
+                      key=key_of("C12-S", "first-hit"))
+    pt = Prov(ix, f)
+    trees = [pt.canon(st.value, st) for st in ast.walk(f.node) if isinstance(st, ast.Assign) and isinstance(st.value, ast.Call) and pt.callee(st.value.func) == "trimesh.triangles.bounds_tree"]
+    ok = bool(trees) and all(t in ("trimesh.triangles.bounds_tree(P_triangles)", "trimesh.triangles.bounds_tree(triangles=P_triangles)") for t in trees)
+    run.instance("S", f.where, f"tree := {trees} when none is passed", ok)
     if not ok:
         run.violation("S", f.where, "the r-tree built by ray_triangle_id does not index the triangles that are tested", key=key_of("C12-S", "tree"))
 
     # ------------------------------------------------------------------ P pruning boxes
     f = ix.func("trimesh.ray.ray_triangle:ray_bounds")
-    pr = Prov(ix, f)
-    stop = ("t_a", "t_b", "ray_directions", "ray_origins", "on_a", "on_b", "on_plane", "ray_bounding", "buffer_dist", "t")
-
-    def one(name):
-        d = [st for st in ast.walk(f.node) if isinstance(st, (ast.Assign, ast.AugAssign)) and ast.unparse(st.targets[0] if isinstance(st, ast.Assign) else st.target) == name]
-        return [(st, pr.canon(st.value, st, stop=stop)) for st in d]
-
-    on_a, on_b = one("on_a"), one("on_b")
-    ok = [c for _, c in on_a] == ["L_ray_directions * L_t_a + L_ray_origins"] and [c for _, c in on_b] == ["L_ray_directions * L_t_b + L_ray_origins"]
-    run.instance("P", f.where, f"clip points: on_a := {[c for _, c in on_a]}, on_b := {[c for _, c in on_b]} (points of the ray)", ok)
+    # one canonical term for the returned box (sa/provenance.py, ssa mode: `x += e` and `x[i] = e` are definitions, locals
+    # are inlined, so neither the names nor the number of intermediate steps matter), matched against expression templates
+    from ..template import match_expr
+    pr = Prov(ix, f, ssa=True, depth=14)
+    rets = [r for r in ast.walk(f.node) if isinstance(r, ast.Return) and r.value is not None]
+    if len(rets) != 1:
+        raise AnalysisError("anchor vanished: the single return of ray_bounds")
+    term = pr.term(rets[0].value, rets[0])
+    e1 = None
+    for pad in ("[-1, -1, -1, 1, 1, 1] * P_buffer_dist", "[-P_buffer_dist, -P_buffer_dist, -P_buffer_dist, P_buffer_dist, P_buffer_dist, P_buffer_dist]"):
+        for box in ("numpy.hstack((_e_OP.min(axis=1), _e_OP.max(axis=1)))", "numpy.column_stack((_e_OP.min(axis=1), _e_OP.max(axis=1)))",
+                    "numpy.concatenate((_e_OP.min(axis=1), _e_OP.max(axis=1)), axis=1)"):
+            e1 = e1 or match_expr(f"{box} + {pad}", term)
+    ok = e1 is not None
+    run.instance("P", f.where, "ray box := (min, max) over the two clip points, padded outward by buffer_dist", ok)
+    if not ok:
+        run.violation("P", f.where, f"ray_bounds: the box handed to the r-tree is not (min, max) of both clip points padded outward by buffer_dist (`{ast.unparse(term)[:140]}...`)",
+                      key=key_of("C12-P", "ray-box"))
+    e2 = None
+    if e1:
+        for shape in (".reshape(_e_s3)", ""):
+            for stack in ("numpy.column_stack((P_ray_directions * _e_TA + P_ray_origins, P_ray_directions * _e_TB + P_ray_origins))",
+                          "numpy.hstack((P_ray_directions * _e_TA + P_ray_origins, P_ray_directions * _e_TB + P_ray_origins))",
+                          "numpy.stack((P_ray_directions * _e_TA + P_ray_origins, P_ray_directions * _e_TB + P_ray_origins), axis=1)"):
+                e2 = e2 or match_expr(stack + shape, e1["_e_OP"])
+    ok = e2 is not None
+    run.instance("P", f.where, "clip points are `origin + t * direction` of the same ray", ok)
     if not ok:
         run.violation("P", f.where, "ray_bounds: the two clip points are not `origin + t * direction` of the same ray", key=key_of("C12-P", "clip-points"))
-    rb = one("ray_bounding")
-    texts = [c for _, c in rb]
-    ok = len(texts) == 2 and texts[0] == "numpy.hstack((L_on_plane.min(axis=1), L_on_plane.max(axis=1)))" \
-        and texts[1] in ("numpy.array([-1, -1, -1, 1, 1, 1]) * L_buffer_dist", "L_buffer_dist * numpy.array([-1, -1, -1, 1, 1, 1])",
-                         "[-1, -1, -1, 1, 1, 1] * L_buffer_dist", "L_buffer_dist * [-1, -1, -1, 1, 1, 1]")
-    op = one("on_plane")
-    ok = ok and [c for _, c in op] == ["numpy.column_stack((L_on_a, L_on_b)).reshape((-1, 2, L_ray_directions.shape[1]))"]
-    run.instance("P", f.where, f"ray box := {texts}", ok)
-    if not ok:
-        run.violation("P", f.where, f"ray_bounds: the box handed to the r-tree is not (min, max) of both clip points padded outward by buffer_dist ({texts})",
-                      key=key_of("C12-P", "ray-box"))
-    clamp = [st for st in ast.walk(f.node) if isinstance(st, ast.Assign) and ast.unparse(st.targets[0]).startswith("t[t <")]
-    ok = len(clamp) == 1 and ast.unparse(clamp[0]) == "t[t < buffer_dist] = buffer_dist"
-    run.instance("P", f.where, f"ray parameters are clamped from below only ({[ast.unparse(c) for c in clamp]})", ok)
+    ok = False
+    detail = ""
+    if e2:
+        ta = match_expr("_e_T[:, 0].reshape(_e_s)", e2["_e_TA"]) or match_expr("_e_T[:, 0:1]", e2["_e_TA"]) or match_expr("_e_T[:, [0]]", e2["_e_TA"])
+        tb = match_expr("_e_T[:, 1].reshape(_e_s)", e2["_e_TB"]) or match_expr("_e_T[:, 1:2]", e2["_e_TB"]) or match_expr("_e_T[:, [1]]", e2["_e_TB"])
+        if ta and tb and ta["_e_T"] == tb["_e_T"]:
+            T = ta["_e_T"]
+            e3 = match_expr("STORE(_e_T0, _[_e_T0 < P_buffer_dist], P_buffer_dist)", T) or match_expr("numpy.maximum(_e_T0, P_buffer_dist)", T) \
+                or match_expr("numpy.clip(_e_T0, P_buffer_dist, None)", T)
+            if e3:
+                # nothing else clamps the parameters (a clamp from above cuts true hits out of the box)
+                inner = ast.parse(e3["_e_T0"], mode="eval").body
+                other = [ast.unparse(c.args[1]) for c in ast.walk(inner) if isinstance(c, ast.Call) and ast.unparse(c.func) == "STORE"
+                         and any(isinstance(x, ast.Compare) and isinstance(x.ops[0], (ast.Lt, ast.LtE, ast.Gt, ast.GtE)) for x in ast.walk(c.args[1]))]
+                other += [ast.unparse(c)[:40] for c in ast.walk(inner) if isinstance(c, ast.Call) and ast.unparse(c.func) in ("numpy.clip", "numpy.minimum", "numpy.maximum")]
+                ok = not other
+                detail = f"other clamps: {other}" if other else "lower clamp at buffer_dist only"
+            else:
+                detail = f"parameters := `{T[:80]}...`"
+    run.instance("P", f.where, f"ray parameters are clamped from below only ({detail})", ok)
     if not ok:
         run.violation("P", f.where, "ray_bounds clamps the clip parameters differently: a clamp from above (or a larger lower bound) cuts true hits out of the box",
                       key=key_of("C12-P", "clamp"))
     f = ix.func("trimesh.proximity:nearby_faces")
     pn_ = Prov(ix, f)
-    st_b = [st for st in ast.walk(f.node) if isinstance(st, ast.Assign) and ast.unparse(st.targets[0]) == "bounds"]
-    st_d = [st for st in ast.walk(f.node) if isinstance(st, (ast.Assign, ast.AugAssign)) and ast.unparse(st.targets[0] if isinstance(st, ast.Assign) else st.target) == "distance_vertex"]
-    btxt = [pn_.canon(st.value, st, stop=("distance_vertex", "points")) for st in st_b]
-    dtxt = [(type(st).__name__, ast.unparse(getattr(st, "op", ast.Add())) if isinstance(st, ast.AugAssign) else "", pn_.canon(st.value, st, stop=("points", "kdtree"))) for st in st_d]
-    kd = [pn_.canon(st.value, st) for st in ast.walk(f.node) if isinstance(st, ast.Assign) and ast.unparse(st.targets[0]) == "kdtree"]
-    ok = btxt == ["numpy.column_stack((L_points - L_distance_vertex, L_points + L_distance_vertex))"] \
-        and len(dtxt) == 2 and dtxt[0][2].startswith("L_kdtree.query(L_points)[0]") and dtxt[1][0] == "AugAssign" and isinstance(st_d[1].op, ast.Add) and dtxt[1][2] == "tol.merge" \
-        and kd == ["scipy.spatial.cKDTree(P_mesh.vertices[P_mesh.referenced_vertices])"]
+    # roles by template (sa/template.py): _v_* are whatever the locals are called today
+    from ..template import find as tfind
+    btxt = dtxt = kd = None
+    ok = False
+    env = None
+    for np_ in ("np", "numpy"):
+        for tpl in (f"_v_d = _e_kd.query(_v_p)[0].reshape(_e_shape)\n_v_d += tol.merge\n_v_b = {np_}.column_stack((_v_p - _v_d, _v_p + _v_d))",
+                    f"_v_d = _e_kd.query(_v_p)[0].reshape(_e_shape) + tol.merge\n_v_b = {np_}.column_stack((_v_p - _v_d, _v_p + _v_d))",
+                    f"_v_d = tol.merge + _e_kd.query(_v_p)[0].reshape(_e_shape)\n_v_b = {np_}.column_stack((_v_p - _v_d, _v_p + _v_d))"):
+            env = env or tfind(tpl, f.node)
+    if env:
+        d_, b_, p_ = env["_v_d"], env["_v_b"], env["_v_p"]
+        # nothing else touches the radius or the box between their definition and the r-tree query
+        others = [st for st in ast.walk(f.node) if isinstance(st, (ast.Assign, ast.AugAssign)) and
+                  ast.unparse(st.targets[0] if isinstance(st, ast.Assign) else st.target).split("[")[0] in (d_, b_)]
+        n_expected = 3 if any(isinstance(st, ast.AugAssign) for st in others) else 2
+        btxt = [f"column_stack(({p_} - {d_}, {p_} + {d_}))"]
+        dtxt = [f"{env['_e_kd']}.query({p_})[0] + tol.merge"]
+        kdn = ast.parse(env["_e_kd"], mode="eval").body
+        kst = next((st for st in ast.walk(f.node) if isinstance(st, ast.Assign) and b_ in [ast.unparse(t) for t in st.targets]), None)
+        kd = [pn_.canon(kdn, kst)] if kst is not None else []
+        pst = kst
+        pt = pn_.canon(ast.Name(id=p_, ctx=ast.Load()), pst) if pst is not None else p_
+        # the box array is what the r-tree is asked about, row by row
+        from ..accum import contributions
+        asked = [c for c in contributions(f.node) if c.iter == b_ and ".intersection(_1)" in c.elt]
+        ok = len(others) == n_expected and kd == ["scipy.spatial.cKDTree(P_mesh.vertices[P_mesh.referenced_vertices])"] and pt in ("P_points",) and bool(asked)
     run.instance("P", f.where, f"proximity box := {btxt}; radius := nearest referenced vertex distance {'+' if ok else '?'} tol.merge; kd-tree over {kd}", ok)
     if not ok:
         run.violation("P", f.where, f"nearby_faces: the candidate box is not point +- (distance to the nearest referenced vertex + tol.merge) ({btxt}, {dtxt}, {kd}): "
